@@ -3,12 +3,18 @@ import PgFdr.Model.C10
 namespace PgFdr.Driver
 open Lean PgFdr
 
-def jscoreC10 (j : Json) : R (Option Rat) :=
+/-- the PEP cell: `[num,den]` a finite float literal, `"nan"` the literal `nan`, `"empty"` the empty cell,
+    `"junk"` text that is no float literal, `"inf"`, `"-inf"` -/
+def jscoreC10 (j : Json) : R (Option Rat × C10.Cell) :=
   match j with
-  | .str "nan" => .ok none
-  | _ => do pure (some (← jrat j))
+  | .str "nan" => .ok (none, .value)
+  | .str "empty" => .ok (none, .empty)
+  | .str "junk" => .ok (none, .junk)
+  | .str "inf" => .ok (none, .posInf)
+  | .str "-inf" => .ok (none, .negInf)
+  | _ => do pure (some (← jrat j), .value)
 
-/-- `{"pep":…, "mod":…, "score": "nan" | [num,den], "prot":[…], "decoy": bool}` -/
+/-- `{"pep":…, "mod":…, "score": [num,den] | "nan" | "empty" | "junk" | "inf" | "-inf", "prot":[…], "decoy": bool}` -/
 def jrawRowC10 (j : Json) : R C10.RawRow := do
   let pep ← jstr (← jget j "pep")
   let mod ← match jgetOpt j "mod" with
@@ -19,7 +25,7 @@ def jrawRowC10 (j : Json) : R C10.RawRow := do
   let decoy ← match jgetOpt j "decoy" with
     | some b => jbool b
     | none => pure false
-  pure { pep := pep, mod := mod, score := score, prot := prot, decoy := decoy }
+  pure { pep := pep, mod := mod, score := score.1, prot := prot, decoy := decoy, cell := score.2 }
 
 /-- `[[peptide, [proteins…]], …]` in dict order -/
 def jdmapC10 (j : Json) : R C10.DMap :=
@@ -33,26 +39,29 @@ def formatNameC10 : C10.Format → String
   | .fragpipe => "fragpipe" | .sage => "sage" | .diann => "diann"
 
 /-- `{"op":"ingest","method":<shipped method name>,"mokapot":bool,"maps":[dmap…],"files":[[row…]…]}`
-    → `{"pil":[[peptide,[num,den],[proteins…]]…],"format":…,"remap":bool}` (dict order);
-    razor methods → `{"err":"razor_unsupported"}` -/
+    → `{"pil":[[peptide,[num,den],[proteins…]]…],"format":…,"remap":bool,"razor":bool}` (dict order) for
+    every shipped method, razor methods included (mode from the description `scoreType [+ " razor"]`);
+    a PEP cell the parser cannot convert → `{"err":"bad_score_cell"}` -/
 def handleIngest (j : Json) : R Json := do
   let name ← jstr (← jget j "method")
   let mokapot ← match jgetOpt j "mokapot" with
     | some b => jbool b
     | none => pure false
-  match C10.scoreTypeOfMethod name with
+  match C10.descriptionOfMethod name with
   | none => .error s!"unknown method {name}"
   | some d =>
-    if C10.isRazorMethod name then pure (ofErr "razor_unsupported") else
     let mode := C10.modeOfScoreType d mokapot
     let maps ← jlist jdmapC10 (← jget j "maps")
     let files ← jlist (jlist jrawRowC10) (← jget j "files")
     if mode.format = .sage ∧ files.any (fun f => f.any (fun r => match r.score with
         | some x => x.den != 1
         | none => false)) then .error "sage exponent is not an integer" else
-    let pil := C10.ingestFiles C10.exactT mode maps files
-    pure (obj [("pil", ofList ofPepInfo pil), ("format", .str (formatNameC10 mode.format)),
-               ("remap", .bool mode.remap)])
+    match C10.ingestFilesChecked C10.exactT mode maps files with
+    | .error .badScoreCell => pure (ofErr "bad_score_cell")
+    | .error .negInfPep => .error "a PSM with PEP -inf is outside the model"
+    | .ok pil =>
+      pure (obj [("pil", ofList ofPepInfo pil), ("format", .str (formatNameC10 mode.format)),
+                 ("remap", .bool mode.remap), ("razor", .bool mode.razor)])
 
 /-- `{"op":"c10_strops","strings":[…]}` → per string: `remove_modifications`, `split(";")`,
     `split(", ")`, `split("\t")`, `[1:-1]`, `[2:-2]`, flank test -/
